@@ -37,6 +37,20 @@ def instances(tier, rng):
             [(u, True) for u in C.spread(cyc, 10 if quick else 60) + C.spread(cyc4, 30 if quick else 400)]
     insts, groups = [], []
     g = 0
+    # flows with zero edges: a constraint over a zero-flow edge can only be honoured by an extra (weight 0) route;
+    # the greedy shortcut never uses such an edge
+    zdag = [u for u in vlib.universe("dag", 4, k=2, w=3, cap=12, zero=True) if 0 in u["ew"]]
+    for u in C.spread(zdag, 50 if quick else 400):
+        zero_edges = [list(e) for e, w in zip(u["edges"], u["ew"]) if w == 0]
+        for cls in ("MinFlowDecomp", "kFlowDecomp"):
+            for cons in ([[rng.choice(zero_edges)]], [[rng.choice(zero_edges)], C.route_edges(u["proutes"][0])[:1]]):
+                r = C.base(u, cls)
+                r["wt"] = "int"
+                r["cons"] = cons
+                r["zero_flow"] = True
+                if cls == "kFlowDecomp":
+                    r["k"] = len(u["proutes"]) + rng.choice([0, 1])
+                insts.append(r)
     for u, cyc_ in items:
         sfx = "Cycles" if cyc_ else ""
         classes = ["MinFlowDecomp" + sfx, "MinPathCover" + sfx, "kLeastAbsErrors" + sfx, "kMinPathError" + sfx,
@@ -102,10 +116,21 @@ def run(tier, seed):
     grecs = recs[len(insts):]
     res.evaluations = len(recs)
     P.validate(main, PROP, res)
-    fd = [r for r in main if r["cls"] in ("MinFlowDecomp", "MinFlowDecompCycles")]
+    # (minimum-count optimality is claimed for positive flows only: the documented lower bound "every edge must be covered"
+    #  assumes non-zero flow; zero-flow instances are judged on validity / constraints / k-feasibility)
+    fd = [r for r in main if r["cls"] in ("MinFlowDecomp", "MinFlowDecompCycles") and not r.get("zero_flow")]
     cv = [r for r in main if r["cls"] in ("MinPathCover", "MinPathCoverCycles")]
     ft = [r for r in main if r["cls"].startswith("kLeastAbs") or r["cls"].startswith("kMinPathError")]
     P.min_count_adversary(fd, res, "Adv_Peel", lambda r: True, exists_bound=lambda r: len(r["proutes"]) + len(r["cons"]))
+    # k-models with constraints: solved exactly when a decomposition into <= k routes honouring the constraints exists
+    kfd = []
+    for r in main:
+        if r["cls"] in ("kFlowDecomp", "kFlowDecompCycles") and r["cons"] and r["ctor_exc"] == "none" and not r.get("timeout") and not r["ign"]:
+            a = dict(r)
+            a["bound"] = r["k"]
+            a["expect"] = "reach" if r["solved"] else "unreach"
+            kfd.append(a)
+    P.reach_adversary("Adv_Peel", kfd, res, "kModelSolvedIffConstrainedDecompositionExists")
     P.min_count_adversary(cv, res, "Adv_Cover", lambda r: True)
     F.fit_adversary(ft, res, lambda r: r["wt"] == "int")
     vlib.validate_groups([dict(r) for r in grecs], PROP, res)
